@@ -32,6 +32,7 @@ use zipora::compression::{
     RealtimeCompressor, RealtimeConfig, SimdLz77Compressor, SimdLz77CompressorX1, SimdLz77CompressorX2, SimdLz77CompressorX4,
     SimdLz77CompressorX8, SimdLz77Config, ZstdCompressor,
 };
+use zipora::compression::{get_global_simd_lz77_compressor, CompressionParallelMode, CompressionTier};
 use zipora::memory::{SecureMemoryPool, SecurePoolConfig};
 use zv::*;
 
@@ -170,6 +171,10 @@ fn payloads(a: &Args, maxlen: usize, dict: &[u8]) -> Vec<Payload> {
     }
     for n in [2usize, 16, 100, 1000, 4096, 65536] {
         add(format!("random:{n}"), r.bytes(n));
+    }
+    // around the stored-form thresholds of the FSE layer (32, 100) and the real-time bypass (64)
+    for n in [31usize, 32, 33, 99, 100, 101] {
+        add(format!("ramp:{n}"), (0..n).map(|i| (i % 251) as u8).collect());
     }
     add("alphabet256".into(), (0..=255u8).collect());
     add("alphabet256x4".into(), (0..1024).map(|i| (i % 256) as u8).collect());
@@ -416,6 +421,10 @@ fn algs() -> Vec<(&'static str, Algorithm)> {
         ("zstd9", Algorithm::Zstd(9)),
         ("zstd19", Algorithm::Zstd(19)),
         ("zstdneg", Algorithm::Zstd(-3)),
+        ("zstd0", Algorithm::Zstd(0)),
+        ("zstd22", Algorithm::Zstd(22)),
+        ("zstdmax", Algorithm::Zstd(i32::MAX)),
+        ("zstdmin", Algorithm::Zstd(i32::MIN)),
         ("huffman", Algorithm::Huffman),
         ("rans", Algorithm::Rans),
         ("dictionary", Algorithm::Dictionary),
@@ -481,7 +490,8 @@ fn drive_trait(a: &Args, t: &mut Tracer, acc: &mut Acc, fam: &str) {
                 (false, true) => 4 << 20,
                 (false, false) => 300_000,
                 (true, true) => if train == "text" { 262144 } else { 65536 },
-                (true, false) => if train == "text" { 65536 } else { 8192 },
+                // (the direct constructors run the same code as the factory: small payloads only in the quick tier)
+                (true, false) => if train == "text" && fam == "factory" { 65536 } else { 8192 },
             };
             let ps = payloads(a, maxlen, &tr);
             let mut run = Run::new(t, &subject, fam, variant, train, json!({}));
@@ -548,6 +558,44 @@ fn drive_selector(a: &Args, t: &mut Tracer, acc: &mut Acc) {
     ];
     let maxlen = if a.thorough() { 4 << 20 } else { 300_000 };
     let ps = payloads(a, maxlen, &[]);
+    // every algorithm the factory advertises can be created (trained on a text corpus) and round-trips
+    if sel(a, "selector:select_best-available") {
+        let tx = corpus(a.seed, "text");
+        let few: Vec<&Payload> = ps.iter().filter(|p| ["empty", "one:65", "zeros:64", "text:1000", "random:100", "phrase:65536"].contains(&p.cls.as_str())).collect();
+        let mut run = Run::new(t, "selector:select_best", "selector", "available", "text", json!({}));
+        run.create(true, "");
+        match guard(CompressorFactory::available_algorithms) {
+            Err(m) => run.panic("available_algorithms", 0, "", m),
+            Ok(algs) => {
+                run.ev(json!({"op":"info","what":"available_algorithms","algs": algs.iter().map(|a| format!("{a:?}")).collect::<Vec<_>>()}));
+                'outer: for alg in algs {
+                    let algo = format!("{alg:?}");
+                    match guard(|| es(CompressorFactory::create(alg, Some(&tx[..])))) {
+                        Err(m) => {
+                            run.panic("create", 0, "", m);
+                            break;
+                        }
+                        Ok(Err(m)) => run.ev(json!({"op":"info","what":"create_refused","algo":algo,"err":m})),
+                        Ok(Ok(c)) => {
+                            for p in &few {
+                                let r = guard(|| es(c.compress(&p.data)));
+                                if let Some(id) = run.compressed("available", p, r, json!({"algo": algo})) {
+                                    let f = run.frame(id);
+                                    let r = guard(|| es(c.decompress(&f)));
+                                    run.decompressed("available", id, &p.cls, r);
+                                }
+                                if run.dead {
+                                    std::mem::forget(c);
+                                    break 'outer;
+                                }
+                            }
+                        }
+                    }
+                }
+            }
+        }
+        acc.add("selector:select_best", run.summary());
+    }
     for (rn, req) in &reqs {
         let subject = "selector:select_best".to_string();
         if !sel(a, &format!("selector:select_best-{rn}")) {
@@ -616,6 +664,62 @@ fn drive_adaptive(a: &Args, t: &mut Tracer, acc: &mut Acc) {
         ("speed", PerformanceRequirements { speed_vs_quality: 0.0, ..Default::default() }),
         ("quality", PerformanceRequirements { speed_vs_quality: 1.0, max_latency: Duration::from_secs(10), ..Default::default() }),
     ];
+    // every AdaptiveConfig field at its two extremes (one run each, a short scenario): "zero" = all minima,
+    // "huge" = all maxima, "eval0" = evaluation_interval 0 alone, "dwr" = default_with_requirements
+    if sel(a, "adaptive:extremes") {
+        let ps = payloads(a, 70_000, &[]);
+        let few: Vec<&Payload> = ps.iter().filter(|p| ["one:65", "zeros:64", "text:1000", "random:100", "random:65536", "phrase:65536"].contains(&p.cls.as_str())).collect();
+        let zero = AdaptiveConfig { learning_window: 0, min_operations: 0, evaluation_interval: 1, switch_threshold: -1.0, aggressive_learning: true, test_sample_size: 0 };
+        let huge = AdaptiveConfig { learning_window: usize::MAX, min_operations: usize::MAX, evaluation_interval: usize::MAX, switch_threshold: f64::MAX, aggressive_learning: false, test_sample_size: usize::MAX };
+        let eval0 = AdaptiveConfig { evaluation_interval: 0, min_operations: 0, ..Default::default() };
+        let extreme_req = PerformanceRequirements { max_latency: Duration::ZERO, min_throughput: u64::MAX, max_memory: 0, target_ratio: 0.0, speed_vs_quality: 1.0 };
+        for (vn, cfg) in [("zero", Some(zero)), ("huge", Some(huge)), ("eval0", Some(eval0)), ("dwr", None)] {
+            let variant = format!("extremes-{vn}");
+            let mut run = Run::new(t, "adaptive:extremes", "adaptive", &variant, "none", json!({}));
+            let made = guard(|| {
+                es(match &cfg {
+                    Some(c) => AdaptiveCompressor::new(c.clone(), if vn == "zero" { extreme_req.clone() } else { PerformanceRequirements::default() }),
+                    None => AdaptiveCompressor::default_with_requirements(extreme_req.clone()),
+                })
+            });
+            match made {
+                Err(m) => run.panic("create", 0, "", m),
+                Ok(Err(m)) => run.create(false, &m),
+                Ok(Ok(mut c)) => {
+                    run.create(true, "");
+                    'alg: for alg in [Algorithm::Zstd(3), Algorithm::None, Algorithm::Zstd(9)] {
+                        match guard(|| es(c.set_algorithm(alg))) {
+                            Err(m) => {
+                                run.panic("switch", 0, "", m);
+                                break;
+                            }
+                            Ok(r) => run.ev(json!({"op":"switch","to":format!("{alg:?}"),"ok":r.is_ok()})),
+                        }
+                        // twice over the payloads: the operation counter passes every evaluation point
+                        for _ in 0..2 {
+                            for p in &few {
+                                let algo = format!("{:?}", c.current_algorithm());
+                                // "dwr" goes through the Compressor trait implementation of AdaptiveCompressor
+                                let r = guard(|| es(if vn == "dwr" { <AdaptiveCompressor as Compressor>::compress(&c, &p.data) } else { c.compress(&p.data) }));
+                                if let Some(id) = run.compressed("extreme", p, r, json!({"algo": algo})) {
+                                    let f = run.frame(id);
+                                    let r = guard(|| es(if vn == "dwr" { <AdaptiveCompressor as Compressor>::decompress(&c, &f) } else { c.decompress(&f) }));
+                                    run.decompressed("extreme", id, &p.cls, r);
+                                }
+                                if run.dead {
+                                    break 'alg;
+                                }
+                            }
+                        }
+                    }
+                    if run.dead {
+                        std::mem::forget(c);
+                    }
+                }
+            }
+            acc.add("adaptive:extremes", run.summary());
+        }
+    }
     let maxlen = if a.thorough() { 4 << 20 } else { 300_000 };
     let mut all = payloads(a, maxlen, &corpus(a.seed, "text"));
     // the empty payload gets a run of its own (scenario "empty") so that what it does to the object is isolated
@@ -788,7 +892,7 @@ fn drive_realtime(a: &Args, t: &mut Tracer, acc: &mut Acc) {
         .cloned()
         .collect();
     for (mn, mode) in modes() {
-        for preset in ["with_mode", "nofallback", "conc1", "builder"] {
+        for preset in ["with_mode", "nofallback", "conc1", "builder", "builder_off", "conc64"] {
             let variant = format!("{mn}-{preset}");
             let subject = format!("realtime:{mn}");
             if !sel(a, &format!("realtime:{variant}")) {
@@ -800,6 +904,21 @@ fn drive_realtime(a: &Args, t: &mut Tracer, acc: &mut Acc) {
                     "with_mode" => RealtimeCompressor::with_mode(mode),
                     "nofallback" => RealtimeCompressor::new(RealtimeConfig { mode, fallback_on_timeout: false, ..Default::default() }),
                     "conc1" => RealtimeCompressor::new(RealtimeConfig { mode, max_concurrent: 1, enable_deadlines: false, ..Default::default() }),
+                    "conc64" => RealtimeCompressor::new(RealtimeConfig {
+                        mode,
+                        max_concurrent: 64,
+                        enable_deadlines: true,
+                        fallback_on_timeout: true,
+                        batch_size: 0,
+                        batch_timeout: Duration::ZERO,
+                    }),
+                    "builder_off" => zipora::compression::realtime::RealtimeCompressorBuilder::new()
+                        .mode(mode)
+                        .max_concurrent(1)
+                        .enable_deadlines(false)
+                        .fallback_on_timeout(false)
+                        .batch_size(usize::MAX)
+                        .build(),
                     _ => zipora::compression::realtime::RealtimeCompressorBuilder::new().mode(mode).max_concurrent(2).batch_size(4).build(),
                 })
             });
@@ -919,6 +1038,10 @@ enum Lz {
     X4(SimdLz77CompressorX4),
     X8(SimdLz77CompressorX8),
     Global,
+    /// compress_with_dictionary of a compressor configured with a dictionary
+    WithDict(SimdLz77Compressor),
+    /// the global instance used through its mutex (get_global_simd_lz77_compressor)
+    GlobalLock,
 }
 impl Lz {
     fn compress(&mut self, x: &[u8]) -> Result<Vec<u8>, String> {
@@ -929,6 +1052,11 @@ impl Lz {
             Lz::X4(c) => c.compress(x),
             Lz::X8(c) => c.compress(x),
             Lz::Global => compress_with_simd_lz77(x),
+            Lz::WithDict(c) => c.compress_with_dictionary(x),
+            Lz::GlobalLock => match get_global_simd_lz77_compressor().lock() {
+                Ok(mut g) => SimdLz77Compressor::compress(&mut g, x),
+                Err(_) => return Err("global lock poisoned".into()),
+            },
         })
     }
     fn decompress(&mut self, f: &[u8]) -> Result<Vec<u8>, String> {
@@ -939,6 +1067,15 @@ impl Lz {
             Lz::X4(c) => c.decompress(f),
             Lz::X8(c) => c.decompress(f),
             Lz::Global => decompress_with_simd_lz77(f),
+            Lz::WithDict(c) => {
+                // a maintenance call between the two halves must not matter
+                c.reset_stats();
+                SimdLz77Compressor::decompress(c, f)
+            }
+            Lz::GlobalLock => match get_global_simd_lz77_compressor().lock() {
+                Ok(mut g) => SimdLz77Compressor::decompress(&mut g, f),
+                Err(_) => return Err("global lock poisoned".into()),
+            },
         })
     }
 }
@@ -959,13 +1096,56 @@ fn make_lz(variant: &str, seed: u64) -> Result<Lz, String> {
         "x4" => Lz::X4(es(SimdLz77CompressorX4::new())?),
         "x8" => Lz::X8(es(SimdLz77CompressorX8::new())?),
         "global" => Lz::Global,
+        "global_lock" => Lz::GlobalLock,
+        "compress_with_dictionary" => {
+            let tx = corpus(seed, "text");
+            let d = es(SuffixArrayDictionary::new(&tx, SuffixArrayDictionaryConfig::default()))?;
+            let c = es(SimdLz77Compressor::with_config(SimdLz77Config::with_dictionary(Arc::new(d), Arc::new(tx))))?;
+            if !c.has_dictionary() {
+                return Err("has_dictionary() = false for a compressor built with_dictionary".into());
+            }
+            Lz::WithDict(c)
+        }
+        // every SimdLz77Config field at its other extreme
+        "cfg_scalar" => Lz::Base(es(SimdLz77Compressor::with_config(SimdLz77Config {
+            enable_simd: false,
+            compression_tier: Some(CompressionTier::Scalar),
+            parallel_mode: CompressionParallelMode::X8,
+            enable_cache_optimization: false,
+            enable_prefetch: false,
+            enable_bmi2: false,
+            enable_early_termination: false,
+            dictionary_config: None,
+            ..Default::default()
+        }))?),
+        "cfg_tiny" => Lz::Base(es(SimdLz77Compressor::with_config(SimdLz77Config {
+            min_match_length: 2,
+            max_match_length: 3,
+            search_window_size: 4,
+            lookahead_buffer_size: 3,
+            max_search_iterations: 1,
+            early_termination_efficiency: 0.0,
+            ..Default::default()
+        }))?),
+        "cfg_wide" => Lz::Base(es(SimdLz77Compressor::with_config(SimdLz77Config {
+            min_match_length: 34,
+            max_match_length: 70_000,
+            search_window_size: 1 << 24,
+            lookahead_buffer_size: 70_000,
+            max_search_iterations: usize::MAX,
+            early_termination_efficiency: f64::MAX,
+            ..Default::default()
+        }))?),
         _ => return Err("unknown variant".into()),
     })
 }
 
 fn drive_simdlz77(a: &Args, t: &mut Tracer, acc: &mut Acc) {
     let maxlen = a.get_u64("lzmax", if a.thorough() { 4096 } else { 1000 }) as usize;
-    for variant in ["new", "high_performance", "low_latency", "maximum_parallelism", "with_dictionary", "x1", "x2", "x4", "x8", "global"] {
+    for variant in [
+        "new", "high_performance", "low_latency", "maximum_parallelism", "with_dictionary", "x1", "x2", "x4", "x8", "global", "global_lock",
+        "compress_with_dictionary", "cfg_scalar", "cfg_tiny", "cfg_wide",
+    ] {
         let subject = "simdlz77:inherent".to_string();
         if !sel(a, &format!("simdlz77:inherent-{variant}")) && !sel(a, &format!("simdlz77:{variant}")) {
             continue;
@@ -1005,17 +1185,92 @@ fn pazip_cfg(preset: &str) -> PaZipCompressorConfig {
         "realtime" => PaZipCompressorConfig::realtime(),
         "reference" => PaZipCompressorConfig::reference_compliant(),
         "reference_hash" => PaZipCompressorConfig { use_suffix_array_local_match: false, ..PaZipCompressorConfig::reference_compliant() },
+        // every public field at its smallest / largest admissible value
+        "cfgmin" => PaZipCompressorConfig {
+            local_config: zipora::compression::dict_zip::LocalMatcherConfig {
+                window_size: 1,
+                max_probe_distance: 1,
+                min_match_length: 1,
+                max_match_length: 1,
+                hash_table_capacity: 0,
+                enable_simd: false,
+                max_matches_per_search: 0,
+                enable_rle_detection: false,
+                min_rle_length: 0,
+            },
+            max_local_probe_distance: 0,
+            max_global_probe_distance: 0,
+            min_net_benefit: i32::MIN,
+            literal_cost_bits: 1,
+            global_access_cost: 0,
+            learning_rate: 0.0,
+            adaptive_thresholds: false,
+            use_reference_encoding: false,
+            use_suffix_array_local_match: true,
+            enable_simd: false,
+            enable_multithreading: true,
+            multithreading_threshold: 0,
+            output_buffer_size: 0,
+            collect_detailed_stats: false,
+        },
+        "cfgmax" => PaZipCompressorConfig {
+            local_config: zipora::compression::dict_zip::LocalMatcherConfig {
+                window_size: 16 * 1024 * 1024,
+                max_probe_distance: 8,
+                min_match_length: 65536,
+                max_match_length: 65536,
+                hash_table_capacity: 1 << 16,
+                enable_simd: true,
+                max_matches_per_search: usize::MAX,
+                enable_rle_detection: true,
+                min_rle_length: usize::MAX,
+            },
+            max_local_probe_distance: u32::MAX,
+            max_global_probe_distance: u32::MAX,
+            min_net_benefit: i32::MAX,
+            literal_cost_bits: 1 << 20,
+            global_access_cost: 1 << 30,
+            learning_rate: 1.0,
+            adaptive_thresholds: true,
+            use_reference_encoding: false,
+            use_suffix_array_local_match: false,
+            enable_simd: true,
+            enable_multithreading: false,
+            multithreading_threshold: usize::MAX,
+            output_buffer_size: 1 << 20,
+            collect_detailed_stats: true,
+        },
         _ => PaZipCompressorConfig::default(),
     }
 }
 
+/// the dictionary of a PA-Zip subject: `how` = builder | direct | a SuffixArrayDictionaryConfig extreme
+fn make_dict(how: &str, training: &[u8]) -> Result<SuffixArrayDictionary, String> {
+    let d = SuffixArrayDictionaryConfig::default();
+    es(match how {
+        "builder" => {
+            let dc = DictionaryBuilderConfig { enable_progress: false, ..Default::default() };
+            return es(DictionaryBuilder::with_config(dc).build(training));
+        }
+        "buildermax" => {
+            let dc = DictionaryBuilderConfig { enable_progress: false, ..DictionaryBuilderConfig::max_compression() };
+            return es(DictionaryBuilder::with_config(dc).build(training));
+        }
+        "buildermin" => {
+            let dc = DictionaryBuilderConfig { enable_progress: false, ..DictionaryBuilderConfig::min_memory() };
+            return es(DictionaryBuilder::with_config(dc).build(training));
+        }
+        "sampled" => SuffixArrayDictionary::new(training, SuffixArrayDictionaryConfig { sample_ratio: 0.1, ..d }),
+        "minpat1" => SuffixArrayDictionary::new(training, SuffixArrayDictionaryConfig { min_pattern_length: 1, min_frequency: 1, max_pattern_length: 8, ..d }),
+        "external" => SuffixArrayDictionary::new(training, SuffixArrayDictionaryConfig { external_mode: true, use_memory_pool: false, enable_simd: false, max_dict_size: 1, ..d }),
+        "bfs0" => SuffixArrayDictionary::new(training, SuffixArrayDictionaryConfig { max_bfs_depth: 0, max_cache_states: 1, min_frequency: u32::MAX, ..d }),
+        "bfs12" => SuffixArrayDictionary::new(training, SuffixArrayDictionaryConfig { max_bfs_depth: 12, max_cache_states: 1 << 20, min_frequency: 1, min_pattern_length: 64, max_pattern_length: 65536, ..d }),
+        _ => SuffixArrayDictionary::new(training, d),
+    })
+}
+
 fn make_pazip(preset: &str, how: &str, training: &[u8]) -> Result<(PaZipCompressor, Vec<u8>), String> {
-    let dict = if how == "builder" {
-        let dc = DictionaryBuilderConfig { enable_progress: false, ..Default::default() };
-        es(DictionaryBuilder::with_config(dc).build(training))?
-    } else {
-        es(SuffixArrayDictionary::new(training, SuffixArrayDictionaryConfig::default()))?
-    };
+    let dict = make_dict(how, training)?;
     let text = dict.dictionary_text().to_vec();
     let pool = es(SecureMemoryPool::new(SecurePoolConfig::small_secure()))?;
     let c = es(PaZipCompressor::new(dict, pazip_cfg(preset), pool))?;
@@ -1025,15 +1280,32 @@ fn make_pazip(preset: &str, how: &str, training: &[u8]) -> Result<(PaZipCompress
 fn drive_pazip(a: &Args, t: &mut Tracer, acc: &mut Acc) {
     // quick: 100 000 admits the 96 000-byte dictionary of the "bigtext" corpus as a payload (one global match > 65535 bytes)
     let maxlen_all = a.get_u64("pzmax", if a.thorough() { 4 << 20 } else { 100_000 }) as usize;
-    for preset in ["default", "fast", "high", "balanced", "realtime", "reference", "reference_hash"] {
-        for (train, how) in [("text", "direct"), ("other", "direct"), ("text", "builder"), ("all256", "direct"), ("one", "direct"), ("bigtext", "direct")] {
+    for preset in ["default", "fast", "high", "balanced", "realtime", "reference", "reference_hash", "cfgmin", "cfgmax"] {
+        let combos: Vec<(&str, &str)> = match preset {
+            // the configuration extremes of the dictionary with the default compressor preset
+            "default" => vec![
+                ("text", "direct"), ("other", "direct"), ("text", "builder"), ("all256", "direct"), ("one", "direct"), ("bigtext", "direct"),
+                ("bigtext", "sampled"), ("text", "minpat1"), ("text", "external"), ("text", "bfs0"), ("text", "bfs12"), ("text", "buildermax"),
+                ("text", "buildermin"),
+            ],
+            "cfgmin" | "cfgmax" => vec![("text", "direct"), ("bigtext", "direct"), ("other", "direct")],
+            _ => vec![("text", "direct"), ("other", "direct"), ("text", "builder"), ("all256", "direct"), ("one", "direct"), ("bigtext", "direct")],
+        };
+        for (train, how) in combos {
             let variant = format!("{preset}-{how}");
             let subject = format!("pazip:{preset}");
             if !sel(a, &format!("pazip:{variant}@{train}")) {
                 continue;
             }
             // the reference presets search matches by brute force (and are undecodable anyway): small payloads only
-            let maxlen = if preset.starts_with("reference") { maxlen_all.min(if a.thorough() { 65536 } else { 4096 }) } else { maxlen_all };
+            let maxlen = if preset.starts_with("reference") {
+                maxlen_all.min(if a.thorough() { 65536 } else { 4096 })
+            } else if preset.starts_with("cfg") && !a.thorough() {
+                // the configuration extremes need the code paths, not the sizes
+                maxlen_all.min(20_000)
+            } else {
+                maxlen_all
+            };
             let tr = corpus(a.seed, train);
             let mut run = Run::new(t, &subject, "pazip", &variant, train, json!({"preset": preset, "dict": how}));
             match guard(|| make_pazip(preset, how, &tr)) {
@@ -1045,10 +1317,16 @@ fn drive_pazip(a: &Args, t: &mut Tracer, acc: &mut Acc) {
                     // payloads containing the dictionary content use the text of the subject's own "text" corpus, so the
                     // subject trained on the unrelated corpus sees them as foreign data
                     let mut ps = payloads(a, maxlen, &if train == "bigtext" { tr.clone() } else { corpus(a.seed, "text") });
-                    if !a.thorough() && train == "text" && how == "direct" && !preset.starts_with("reference") {
+                    if !a.thorough() && train == "text" && how == "direct" && !preset.starts_with("reference") && preset != "cfgmax" {
                         // the block-parallel path (inputs of 1 MiB and more) once per preset in the quick tier
                         let n = 1usize << 20;
                         ps.push(Payload { cls: format!("text:{n}"), data: text(&mut Rng::new(a.seed).derive("pazip-1m"), n) });
+                        if preset == "default" {
+                            // one byte below the threshold (sequential) and one above (a 1-byte last block)
+                            for m in [n - 1, n + 1] {
+                                ps.push(Payload { cls: format!("text:{m}"), data: text(&mut Rng::new(a.seed).derive("pazip-1m"), m) });
+                            }
+                        }
                     }
                     for p in &ps {
                         let mut out = Vec::new();
@@ -1076,6 +1354,59 @@ fn drive_pazip(a: &Args, t: &mut Tracer, acc: &mut Acc) {
                             break;
                         }
                     }
+                    // ---- maintenance calls must not change what frames mean; a dictionary that went through
+                    // serialize -> deserialize (and save_to_file -> load_from_file) decompresses the same frames
+                    if !run.dead && !preset.starts_with("reference") && how == "direct" && (train == "text" || train == "bigtext") {
+                        c.reset_stats();
+                        let v = c.validate().is_ok();
+                        run.ev(json!({"op":"info","what":"reset_stats+validate","valid":v}));
+                        let olds: Vec<u32> = run.frames.iter().filter(|(_, f)| f.len() < 70_000).map(|(i, _)| *i).step_by(7).take(14).collect();
+                        for id in &olds {
+                            let f = run.frame(*id);
+                            let mut y = Vec::new();
+                            let r = guard(|| es(c.decompress(&f, &mut y)).map(|_| y));
+                            run.decompressed("after_reset", *id, "", r);
+                            if run.dead {
+                                break;
+                            }
+                        }
+                        for via in ["serialize", "file"] {
+                            if run.dead {
+                                break;
+                            }
+                            let path = a.out.join(format!("dict-{}-{}-{}.bin", sanitize(preset), train, via));
+                            let twin = guard(|| {
+                                let d0 = make_dict(how, &tr)?;
+                                let d1 = if via == "serialize" {
+                                    let bytes = es(d0.serialize())?;
+                                    es(SuffixArrayDictionary::deserialize(&bytes))?
+                                } else {
+                                    es(d0.save_to_file(&path))?;
+                                    es(SuffixArrayDictionary::load_from_file(&path))?
+                                };
+                                let text = d1.dictionary_text().to_vec();
+                                let pool = es(SecureMemoryPool::new(SecurePoolConfig::small_secure()))?;
+                                es(PaZipCompressor::new(d1, pazip_cfg(preset), pool)).map(|c| (c, text))
+                            });
+                            let _ = std::fs::remove_file(&path);
+                            match twin {
+                                Err(m) => run.panic("reload", 0, "", m),
+                                Ok(Err(m)) => run.ev(json!({"op":"reload","how":via,"ok":false,"text":NODIG(),"orig":digest(&dtext),"err":m})),
+                                Ok(Ok((mut c2, text))) => {
+                                    run.ev(json!({"op":"reload","how":via,"ok":true,"text":digest(&text),"orig":digest(&dtext),"err":""}));
+                                    for id in &olds {
+                                        let f = run.frame(*id);
+                                        let mut y = Vec::new();
+                                        let r = guard(|| es(c2.decompress(&f, &mut y)).map(|_| y));
+                                        run.decompressed(if via == "serialize" { "twin_serialize" } else { "twin_file" }, *id, "", r);
+                                        if run.dead {
+                                            break;
+                                        }
+                                    }
+                                }
+                            }
+                        }
+                    }
                     if run.dead {
                         std::mem::forget(c);
                     }
@@ -1092,6 +1423,14 @@ fn fse_cfg(name: &str) -> FseConfig {
     match name {
         "for_pa_zip" => FseConfig::for_pa_zip(),
         "fast_pa_zip" => FseConfig::fast_pa_zip(),
+        // every FseConfig field at its extremes (table_log 4 and 16 lie outside the decoder's 5..=15)
+        "tl5" => FseConfig { table_log: 5, adaptive: false, compression_level: 1, fast_decode: true, ..FseConfig::default() },
+        "tl15" => FseConfig { table_log: 15, adaptive: true, compression_level: 22, fast_decode: false, ..FseConfig::default() },
+        "tl4" => FseConfig { table_log: 4, ..FseConfig::default() },
+        "tl16" => FseConfig { table_log: 16, ..FseConfig::default() },
+        "sym127" => FseConfig { max_symbol: 127, ..FseConfig::default() },
+        "sym0" => FseConfig { max_symbol: 0, compression_level: i32::MIN, ..FseConfig::default() },
+        "reset" => FseConfig::default(),
         _ => FseConfig::default(),
     }
 }
@@ -1099,7 +1438,8 @@ fn fse_cfg(name: &str) -> FseConfig {
 fn drive_fse(a: &Args, t: &mut Tracer, acc: &mut Acc) {
     let maxlen = if a.thorough() { 1 << 20 } else { 65536 };
     let ps = payloads(a, maxlen, &[]);
-    for cfgn in ["default", "for_pa_zip", "fast_pa_zip"] {
+    for cfgn in ["default", "for_pa_zip", "fast_pa_zip", "tl5", "tl15", "tl4", "tl16", "sym127", "sym0", "reset"] {
+        let preset = matches!(cfgn, "default" | "for_pa_zip" | "fast_pa_zip");
         // stateful object
         let subject = "fse:compressor".to_string();
         if sel(a, &format!("fse:compressor-{cfgn}")) {
@@ -1111,6 +1451,12 @@ fn drive_fse(a: &Args, t: &mut Tracer, acc: &mut Acc) {
                 Ok(Ok(mut c)) => {
                     run.create(true, "");
                     for p in &ps {
+                        if cfgn == "reset" {
+                            if let Err(m) = guard(|| c.reset()) {
+                                run.panic("reset", 0, &p.cls, m);
+                                break;
+                            }
+                        }
                         let r = guard(|| es(c.compress(&p.data)));
                         if let Some(id) = run.compressed("fse", p, r, json!({"algo":"Fse"})) {
                             let f = run.frame(id);
@@ -1128,7 +1474,7 @@ fn drive_fse(a: &Args, t: &mut Tracer, acc: &mut Acc) {
         }
         // a fresh object per payload
         let subject = "fse:fresh".to_string();
-        if sel(a, &format!("fse:fresh-{cfgn}")) {
+        if preset && sel(a, &format!("fse:fresh-{cfgn}")) {
             for p in &ps {
                 let mut run = Run::new(t, &subject, "fse", &format!("fresh-{cfgn}"), "none", json!({"cls": p.cls}));
                 match guard(|| es(FseCompressor::with_config(fse_cfg(cfgn)))) {
@@ -1272,14 +1618,14 @@ fn units(a: &Args) -> Vec<String> {
     for n in direct.iter().filter(|n| !safe(n)) {
         u.push(format!("direct:{n}"));
     }
-    for c in ["default", "eager"] {
+    for c in ["default", "eager", "extremes"] {
         u.push(format!("adaptive:{c}"));
     }
     for (m, _) in modes() {
         u.push(format!("realtime:{m}"));
     }
     u.push("simdlz77".to_string());
-    for preset in ["default", "fast", "high", "balanced", "realtime", "reference", "reference_hash"] {
+    for preset in ["default", "fast", "high", "balanced", "realtime", "reference", "reference_hash", "cfgmin", "cfgmax"] {
         u.push(format!("pazip:{preset}"));
     }
     u.push("fse,selector".to_string());
@@ -1587,6 +1933,405 @@ fn replay(a: &Args) {
     );
 }
 
+// ---------------------------------------------------------------- mechanism probes (mode probe)
+
+/// a Match built the way the library builds it (constructors, as SimdLz77Compressor::create_pa_zip_match does)
+fn construct(kind: &str, d: u64, len: u64, b: u64, pos: u64) -> Option<zipora::error::Result<Match>> {
+    Some(match kind {
+        "lit" => Match::literal(u8::try_from(len).ok()?),
+        "glob" => Match::global(u32::try_from(pos).ok()?, u16::try_from(len).ok()?),
+        "rle" => Match::rle(u8::try_from(b).ok()?, u8::try_from(len).ok()?),
+        "near" => Match::near_short(u8::try_from(d).ok()?, u8::try_from(len).ok()?),
+        "far1s" => Match::far1_short(u16::try_from(d).ok()?, u8::try_from(len).ok()?),
+        "far2s" => Match::far2_short(u32::try_from(d).ok()?, u8::try_from(len).ok()?),
+        "far2l" => Match::far2_long(u16::try_from(d).ok()?, u16::try_from(len).ok()?),
+        "far3l" => Match::far3_long(u32::try_from(d).ok()?, u32::try_from(len).ok()?),
+        _ => return None,
+    })
+}
+
+fn kind_name(t: zipora::compression::dict_zip::CompressionType) -> &'static str {
+    use zipora::compression::dict_zip::CompressionType as T;
+    match t {
+        T::Literal => "lit",
+        T::Global => "glob",
+        T::RLE => "rle",
+        T::NearShort => "near",
+        T::Far1Short => "far1s",
+        T::Far2Short => "far2s",
+        T::Far2Long => "far2l",
+        T::Far3Long => "far3l",
+    }
+}
+
+/// boundary values of a field with valid range lo..=hi
+fn bnd(lo: u64, hi: u64) -> Vec<u64> {
+    let mut v: Vec<u64> = vec![lo.saturating_sub(1), lo, lo + 1, hi.saturating_sub(1), hi, hi + 1];
+    v.sort();
+    v.dedup();
+    v
+}
+
+/// Mechanism-level executions judged by TLC (Trace_Compressor: BitsOK, CtorOK, ChooseOK, RefEncOK, RefRecOK,
+/// GMatchOK): bit stream, Match constructors, kind selectors, the reference byte encoder (read back by the
+/// specification, the crate has no decoder for it), dictionary matchers.
+fn probe(a: &Args) {
+    use zipora::compression::dict_zip::compression_types::{choose_best_compression_type, choose_best_compression_type_reference, get_encoding_meta};
+    use zipora::compression::dict_zip::reference_encoding::{compress_record_reference, get_back_ref_encoding_meta, DzType, ReferenceEncoder};
+    let mut t = Tracer::new(&a.out, "c02-b3");
+    t.max_events = 4000;
+    let mut rng = Rng::new(a.seed).derive("probe");
+    let mut counts = Map::new();
+    let mut bump = |k: &str| {
+        let c = counts.get(k).and_then(|c: &Value| c.as_u64()).unwrap_or(0);
+        counts.insert(k.to_string(), json!(c + 1));
+    };
+    let pan = |t: &mut Tracer, inop: &str, m: String| t.ev(json!({"op":"panic","in":inop,"id":0,"cls":"","msg":m}));
+
+    // ---- (1) BitWriter::write_bits / bits_written / finish -> BitReader::read_bits / has_bits / bit_position
+    if sel(a, "pazipmech:bits") {
+        t.reset("compressor", "pazipmech", json!({"fam":"pazipmech","variant":"bits","train":"none"}));
+        let widths = [0u8, 1, 2, 3, 5, 7, 8, 9, 13, 15, 16, 17, 24, 30, 31, 32];
+        for round in 0..60 {
+            let n = 1 + rng.below(24) as usize;
+            let mut ws: Vec<(u32, u8)> = vec![];
+            for _ in 0..n {
+                let w = if round < 16 { widths[round] } else { *rng.pick(&widths) };
+                let v: u32 = match rng.below(5) {
+                    0 => 0,
+                    1 if w > 0 && w < 32 => (1u32 << w) - 1,
+                    2 if w < 31 => 1u32 << w, // one bit above the width: must be masked away
+                    3 => 0x7fff_ffff,
+                    _ => (rng.next() as u32) & 0x7fff_ffff,
+                };
+                ws.push((v, w));
+            }
+            if round == 59 {
+                ws.push((1, 33)); // more than 32 bits at once: refused
+            }
+            let r = guard(|| {
+                let mut w = BitWriter::new();
+                for (v, bits) in &ws {
+                    w.write_bits(*v, *bits).map_err(|e| e.to_string())?;
+                }
+                let written = w.bits_written();
+                let part = w.buffer().len();
+                let buf = w.finish();
+                let mut rd = BitReader::new(&buf);
+                let mut out = vec![];
+                for (_, bits) in &ws {
+                    if !rd.has_bits(*bits) {
+                        return Err("has_bits false before a read".to_string());
+                    }
+                    out.push(rd.read_bits(*bits).map_err(|e| e.to_string())?);
+                }
+                Ok::<_, String>((written, part, buf.len(), out, rd.bit_position(), rd.has_bits(8)))
+            });
+            let wsj: Vec<Value> = ws.iter().map(|(v, w)| json!([v, w])).collect();
+            match r {
+                Err(m) => pan(&mut t, "bits", m),
+                Ok(Err(m)) => t.ev(json!({"op":"bits","ws":wsj,"ok":false,"written":0,"buf_len":0,"rd":[],"pos":0,"tail8":false,"err":m})),
+                Ok(Ok((written, _part, blen, out, pos, tail8))) => {
+                    t.ev(json!({"op":"bits","ws":wsj,"ok":true,"written":written,"buf_len":blen,"rd":out,"pos":pos,"tail8":tail8,"err":""}))
+                }
+            }
+            bump("bits");
+        }
+    }
+
+    // ---- (2) Match constructors
+    if sel(a, "pazipmech:ctor") {
+        t.reset("compressor", "pazipmech", json!({"fam":"pazipmech","variant":"ctor","train":"none"}));
+        let mut grid: Vec<(&str, u64, u64, u64, u64)> = vec![];
+        for l in bnd(1, 32) {
+            grid.push(("lit", 0, l, 0, 0));
+        }
+        for l in bnd(6, 65535) {
+            for p in [0u64, 1, 65535, 65536, 0x7fff_ffff] {
+                grid.push(("glob", 0, l, 0, p));
+            }
+        }
+        for l in bnd(2, 33) {
+            for b in [0u64, 255] {
+                grid.push(("rle", 0, l, b, 0));
+            }
+        }
+        for d in bnd(2, 9) {
+            for l in bnd(2, 5) {
+                grid.push(("near", d, l, 0, 0));
+            }
+        }
+        for d in bnd(2, 257) {
+            for l in bnd(2, 33) {
+                grid.push(("far1s", d, l, 0, 0));
+            }
+        }
+        for d in bnd(258, 65793) {
+            for l in bnd(2, 33) {
+                grid.push(("far2s", d, l, 0, 0));
+            }
+        }
+        for d in bnd(0, 65535) {
+            for l in [33u64, 34, 35, 64, 65, 161, 162, 65534, 65535] {
+                grid.push(("far2l", d, l, 0, 0));
+            }
+        }
+        for d in bnd(0, 16777215) {
+            for l in [33u64, 34, 35, 161, 162, 32801, 32802, 1073774625, 1073774626] {
+                grid.push(("far3l", d, l, 0, 0));
+            }
+        }
+        for (k, d, l, b, p) in grid {
+            let m = json!({"k":k,"d":d,"len":l,"b":b,"pos":p});
+            match guard(|| construct(k, d, l, b, p)) {
+                Err(msg) => pan(&mut t, "ctor", msg),
+                Ok(None) => {} // operands the Rust types cannot hold
+                Ok(Some(Err(e))) => t.ev(json!({"op":"ctor","m":m,"ok":false,"got":m,"err":e.to_string()})),
+                Ok(Some(Ok(got))) => t.ev(json!({"op":"ctor","m":m,"ok":true,"got":match_json(&got),"err":""})),
+            }
+            bump("ctor");
+        }
+    }
+
+    // ---- (3) kind selectors: get_encoding_meta / choose_best_compression_type_reference / choose_best_compression_type
+    if sel(a, "pazipmech:choose") {
+        t.reset("compressor", "pazipmech", json!({"fam":"pazipmech","variant":"choose","train":"none"}));
+        let ds = [0u64, 1, 2, 3, 8, 9, 10, 11, 256, 257, 258, 259, 65534, 65535, 65536, 65792, 65793, 65794, 16777214, 16777215, 16777216];
+        let ls = [0u64, 1, 2, 3, 4, 5, 6, 7, 32, 33, 34, 35, 36, 64, 65, 66, 255, 256, 65535, 65536];
+        for d in ds {
+            for l in ls {
+                let r = guard(|| {
+                    let kr = choose_best_compression_type_reference(d as usize, l as usize);
+                    let km = get_encoding_meta(d as usize, l as usize).compression_type;
+                    let kl = choose_best_compression_type(d as usize, l as usize);
+                    let kb = get_back_ref_encoding_meta(d as usize, l as usize).dz_type;
+                    (kr, km, kl, kb)
+                });
+                match r {
+                    Err(m) => pan(&mut t, "choose", m),
+                    Ok((kr, km, kl, kb)) => {
+                        let k = kind_name(kr);
+                        let k_back = match kb {
+                            DzType::Literal => "lit",
+                            DzType::Global => "glob",
+                            DzType::RLE => "rle",
+                            DzType::NearShort => "near",
+                            DzType::Far1Short => "far1s",
+                            DzType::Far2Short => "far2s",
+                            DzType::Far2Long => "far2l",
+                            DzType::Far3Long => "far3l",
+                        };
+                        // the match of the chosen kind, built as SimdLz77Compressor::create_pa_zip_match builds it
+                        let built = guard(|| construct(k, d, l, 0, d));
+                        let (ctor_ok, got) = match built {
+                            Ok(Some(Ok(m))) => (true, match_json(&m)),
+                            _ => (false, json!({"k":k,"d":d,"len":l,"b":0,"pos":0})),
+                        };
+                        let supports = guard(|| kr.supports(if k == "lit" || k == "glob" { 0 } else { d as usize }, l as usize)).unwrap_or(false);
+                        t.ev(json!({"op":"choose","d":d,"len":l,"k_ref":k,"k_meta":kind_name(km),"k_back":k_back,"k_legacy":opt(kl.map(kind_name)),
+                                    "ctor_ok":ctor_ok,"got":got,"supports":supports}));
+                        if ctor_ok {
+                            // and it survives the bit codec (judged as a codec event)
+                            if let Ok(Some(Ok(m))) = guard(|| construct(k, d, l, 0, d)) {
+                                let mj = match_json(&m);
+                                let r = guard(|| {
+                                    let mut w = BitWriter::new();
+                                    let bits = encode_match(&m, &mut w).map_err(|e| e.to_string())?;
+                                    let written = w.bits_written();
+                                    let buf = w.finish();
+                                    let mut rd = BitReader::new(&buf);
+                                    Ok::<_, String>((bits, written, buf.len(), decode_match(&mut rd).map_err(|e| e.to_string())))
+                                });
+                                match r {
+                                    Err(msg) => pan(&mut t, "encode_match", msg),
+                                    Ok(Err(e)) => t.ev(json!({"op":"codec","api":"match","ms":[mj],"enc_ok":false,"bits_out":0,"buf_len":0,"dec_ok":false,"dec":[],"bits_in":0,"err":e})),
+                                    Ok(Ok((bits, written, blen, Err(e)))) => t.ev(json!({"op":"codec","api":"match","ms":[mj],"enc_ok":true,"bits_out":bits,"written":written,"buf_len":blen,"dec_ok":false,"dec":[],"bits_in":0,"err":e})),
+                                    Ok(Ok((bits, written, blen, Ok((m2, bits2))))) => t.ev(json!({"op":"codec","api":"match","ms":[mj],"enc_ok":true,"bits_out":bits,"written":written,"buf_len":blen,"dec_ok":true,"dec":[match_json(&m2)],"bits_in":bits2,"err":""})),
+                                }
+                            }
+                        }
+                    }
+                }
+                bump("choose");
+            }
+        }
+    }
+
+    // ---- (4) ReferenceEncoder::encode_*: the bytes are read back by the specification (RefDecodeOne)
+    if sel(a, "pazipmech:refenc") {
+        t.reset("compressor", "pazipmech", json!({"fam":"pazipmech","variant":"refenc","train":"none"}));
+        let mut grid: Vec<(&str, u64, u64, u64)> = vec![]; // kind, d, len, pos
+        for l in bnd(2, 33) {
+            grid.push(("rle", 1, l, 0));
+        }
+        for d in bnd(2, 9) {
+            for l in bnd(2, 5) {
+                grid.push(("near", d, l, 0));
+            }
+        }
+        for d in bnd(2, 257) {
+            for l in bnd(2, 33) {
+                grid.push(("far1s", d, l, 0));
+            }
+        }
+        for d in bnd(258, 65793) {
+            for l in bnd(2, 33) {
+                grid.push(("far2s", d, l, 0));
+            }
+        }
+        for d in bnd(0, 65535) {
+            for l in [33u64, 34, 35, 63, 64, 65, 66, 191, 192, 193, 194, 16447, 16448, 16449, 70000] {
+                grid.push(("far2l", d, l, 0));
+            }
+        }
+        for d in bnd(0, 16777215) {
+            for l in [4u64, 5, 6, 34, 35, 36, 37, 162, 163, 164, 165, 16419, 16420, 70000] {
+                grid.push(("far3l", d, l, 0));
+            }
+        }
+        for p in bnd(0, 16777215) {
+            for l in [5u64, 6, 7, 31, 32, 33, 34, 159, 160, 161, 162, 70000] {
+                grid.push(("glob", 0, l, p));
+            }
+        }
+        for (k, d, l, p) in grid {
+            let r = guard(|| {
+                let mut e = ReferenceEncoder::new(Vec::new());
+                let (du, lu) = (d as usize, l as usize);
+                match k {
+                    "rle" => e.encode_rle(lu),
+                    "near" => e.encode_near_short(du, lu),
+                    "far1s" => e.encode_far1_short(du, lu),
+                    "far2s" => e.encode_far2_short(du, lu),
+                    "far2l" => e.encode_far2_long(du, lu),
+                    "far3l" => e.encode_far3_long(du, lu),
+                    _ => e.encode_global(p as u32, lu, 24, 32),
+                }
+                .map(|_| e.into_writer())
+                .map_err(|x| x.to_string())
+            });
+            match r {
+                Err(m) => t.ev(json!({"op":"panic","in":"refenc","id":0,"cls":format!("{k}:{d}:{l}:{p}"),"msg":m})),
+                Ok(Err(m)) => t.ev(json!({"op":"refenc","kind":k,"d":d,"len":l,"pos":p,"data":[],"ok":false,"bytes":[],"err":m})),
+                Ok(Ok(bytes)) => t.ev(json!({"op":"refenc","kind":k,"d":d,"len":l,"pos":p,"data":[],"ok":true,"bytes":bytes_json(&bytes),"err":""})),
+            }
+            bump("refenc");
+        }
+        for n in [0usize, 1, 2, 31, 32, 33, 63, 64, 65, 100] {
+            let data = rng.bytes(n);
+            let r = guard(|| {
+                let mut e = ReferenceEncoder::new(Vec::new());
+                e.encode_literal(&data).map(|_| e.into_writer()).map_err(|x| x.to_string())
+            });
+            match r {
+                Err(m) => pan(&mut t, "refenc", m),
+                Ok(Err(m)) => t.ev(json!({"op":"refenc","kind":"lit","d":0,"len":n,"pos":0,"data":bytes_json(&data),"ok":false,"bytes":[],"err":m})),
+                Ok(Ok(bytes)) => t.ev(json!({"op":"refenc","kind":"lit","d":0,"len":n,"pos":0,"data":bytes_json(&data),"ok":true,"bytes":bytes_json(&bytes),"err":""})),
+            }
+            bump("refenc");
+        }
+    }
+
+    // ---- (5) compress_record_reference: the record is decoded by the specification (RefApply) and must be the payload
+    if sel(a, "pazipmech:refrec") {
+        t.reset("compressor", "pazipmech", json!({"fam":"pazipmech","variant":"refrec","train":"none"}));
+        let tx = corpus(a.seed, "text");
+        let dict: Vec<u8> = tx[..200].to_vec();
+        let ps = payloads(a, 300, &dict);
+        for p in &ps {
+            for sa in [false, true] {
+                for with_dict in [false, true] {
+                    let r = guard(|| {
+                        let mut out = Vec::new();
+                        compress_record_reference(&p.data, &mut out, sa, if with_dict { Some(&dict[..]) } else { None }, 24, 32).map(|n| (n, out)).map_err(|e| e.to_string())
+                    });
+                    let dj = if with_dict { bytes_json(&dict) } else { json!([]) };
+                    match r {
+                        Err(m) => t.ev(json!({"op":"panic","in":"refrec","id":0,"cls":p.cls,"msg":m})),
+                        Ok(Err(m)) => t.ev(json!({"op":"refrec","cls":p.cls,"sa":sa,"x":bytes_json(&p.data),"dict":dj,"ok":false,"frame":[],"consumed":0,"err":m})),
+                        Ok(Ok((n, out))) => t.ev(json!({"op":"refrec","cls":p.cls,"sa":sa,"x":bytes_json(&p.data),"dict":dj,"ok":true,"frame":bytes_json(&out),"consumed":n,"err":""})),
+                    }
+                    bump("refrec");
+                }
+            }
+        }
+    }
+
+    // ---- (6) SuffixArrayDictionary::find_longest_match / find_all_matches / da_match_max_length
+    if sel(a, "pazipmech:gmatch") {
+        t.reset("compressor", "pazipmech", json!({"fam":"pazipmech","variant":"gmatch","train":"none"}));
+        for (train, how) in [("text", "direct"), ("text", "minpat1"), ("text", "bfs0"), ("bigtext", "sampled"), ("all256", "direct"), ("text", "builder")] {
+            let tr = corpus(a.seed, train);
+            let mut d = match guard(|| make_dict(how, &tr)) {
+                Ok(Ok(d)) => d,
+                _ => continue,
+            };
+            let text = d.dictionary_text().to_vec();
+            // patterns: dictionary slices (matches exist), slices followed by foreign bytes, foreign bytes
+            let mut pats: Vec<Vec<u8>> = vec![];
+            for (off, n) in [(0usize, 4usize), (0, 300), (1, 5), (17, 64), (100, 256), (101, 257), (500, 1000), (0, 3), (7, 1)] {
+                if off + n <= text.len() {
+                    pats.push(text[off..off + n].to_vec());
+                }
+            }
+            if text.len() > 70 {
+                pats.push(text[text.len() - 40..].to_vec());
+                let mut m = text[text.len() / 2..text.len() / 2 + 30].to_vec();
+                m.extend(rng.bytes(20));
+                pats.push(m);
+            }
+            if text.len() > 70_000 {
+                pats.push(text[66_000..66_100].to_vec());
+            }
+            pats.push(rng.bytes(50));
+            pats.push(vec![0xfe; 10]);
+            pats.push(vec![]);
+            for api in ["find_longest_match", "find_all_matches", "da_match_max_length", "find_longest_match"] {
+                if api != "find_longest_match" {
+                    // maintenance between the passes must not change what is found
+                    let _ = guard(|| d.optimize_cache());
+                    d.reset_stats();
+                }
+                let mut probes = vec![];
+                for pat in &pats {
+                    let found: Result<Vec<(usize, usize)>, String> = guard(|| match api {
+                        "find_longest_match" => es(d.find_longest_match(pat, 0, 256)).map(|m| m.map(|m| vec![(m.dict_position, m.length)]).unwrap_or_default()),
+                        "find_all_matches" => es(d.find_all_matches(pat, 8)).map(|v| v.into_iter().map(|m| (m.dict_position, m.length)).collect()),
+                        _ => {
+                            let st = d.da_match_max_length(pat);
+                            Ok(if st.is_empty() || st.depth == 0 { vec![] } else { vec![(usize::MAX, st.depth)] })
+                        }
+                    })
+                    .and_then(|r| r);
+                    match found {
+                        Err(m) => {
+                            pan(&mut t, api, m);
+                            break;
+                        }
+                        Ok(v) if v.is_empty() => probes.push(json!({"plen":pat.len(),"found":false,"inb":true,"mlen":0,"dslice":NODIG(),"ppre":NODIG()})),
+                        Ok(v) => {
+                            for (pos, mlen) in v {
+                                if pos == usize::MAX {
+                                    // a depth without a position: only the length bound can be judged
+                                    probes.push(json!({"plen":pat.len(),"found":true,"inb":true,"mlen":mlen,"dslice":NODIG(),"ppre":NODIG()}));
+                                    continue;
+                                }
+                                let inb = pos.checked_add(mlen).map_or(false, |e| e <= text.len()) && mlen <= pat.len();
+                                let (ds, pp) = if inb { (digest(&text[pos..pos + mlen]), digest(&pat[..mlen])) } else { (NODIG(), NODIG()) };
+                                probes.push(json!({"plen":pat.len(),"found":true,"inb":inb,"mlen":mlen,"dslice":ds,"ppre":pp}));
+                            }
+                        }
+                    }
+                }
+                t.ev(json!({"op":"gmatch","api":api,"dict":format!("{how}@{train}"),"probes":probes}));
+                bump("gmatch");
+            }
+        }
+    }
+    t.close();
+    write_summary(&a.out, &json!({"mode":"probe","events": t.total_events, "runs": t.runs, "counts": counts}));
+}
+
 // ---------------------------------------------------------------- census (developer aid, not used by the check)
 
 fn census(a: &Args) {
@@ -1698,6 +2443,7 @@ fn main() {
         "drive" => parent(&a),
         "child" => child(&a),
         "replay" => replay(&a),
+        "probe" => probe(&a),
         "census" => census(&a),
         "witness" => witness(&a),
         m => {
